@@ -300,7 +300,9 @@ def gen_penman_string(rng, wf=True):
 
 
 TOKENS = ['(', ')', '/', ':ARG0', ':', ':r-of', 'a', 'b', 'a,b', ',', '^', '"s t"', '"', '"a\\"', '"b\\\\"', '\\"', '"c\\\\\\"', '~1', '~e.1', '~e.', '~', '#c',
-          '# ::k v', '\\', '.', '-', '1', 'B', 'x~1', ':r~e.1', '^r', ',b', 'a,']
+          '# ::k v', '\\', '.', '-', '1', 'B', 'x~1', ':r~e.1', '^r', ',b', 'a,',
+          # letters that case-fold to ASCII letters are NOT alignment prefixes; neither are digits-less forms
+          'b~ſ.1', ':r~K2', 'c~ı3,4', 'x~İ.1', '~é1', 'b~e1', ':r~x2,3', 'b~E4']
 
 
 def perturb(rng, s):
